@@ -18,19 +18,34 @@ def wrap_setup(base):
         cm = I.call(I.models["orbax.checkpoint"]["CheckpointManager"], [I.PathV("ckdir")], {"options": None})
         I.assume(toz3(cm.attrs["__ghost_latest"]) <= c["n0"])                    # solve.pre.fresh_steps: no step newer than the current iteration exists
         sv.attrs["checkpoint_manager"] = cm; sv.attrs["enable_async_checkpointing"] = z3.Bool("enable_async")
-        I.ghost["effects"] = []; c["I"] = I; c["mark"] = [0]; c["f"] = sv.attrs["checkpoint_frequency"]
+        I.ghost["effects"] = []; c["I"] = I; c["mark"] = [0]; c["f"] = sv.attrs["checkpoint_frequency"]; c["snaps"] = {}
+        orig = cm.attrs["save"].fn
+        def save_and_snapshot(step, args=None):                  # ghost: remember the solver's attributes at the moment of the call
+            r = orig(step, args=args); c["snaps"][len(saves(c)) - 1] = dict(sv.attrs); return r
+        cm.attrs["save"] = Builtin(save_and_snapshot, "orbax.checkpoint.CheckpointManager.save")
         return c
     return s
-def state_ok(c, saved):
-    """the state handed to the manager is the solver's state at the call: same values object, label = iteration (C09 save.site.label / no stale buffer)"""
+def state_ok(c, saved, index=None):
+    """the state handed to the manager is the solver's state at the call: EVERY leaf of the pytree is the solver's current attribute of that
+    name (same array object / equal scalar), and the label info.iteration is the current iteration (C09 save.site.label / no stale buffer)"""
     kind, a, pc = saved; step, accepted, args = a[1], a[2], a[3]
     st = args[1] if isinstance(args, tuple) else None
     if not isinstance(st, Obj): return z3.BoolVal(False)
-    sv = c["self"]
-    same_vals = st.attrs.get("values") is sv.attrs["values"] if "values" in st.attrs else False
-    info = st.attrs.get("info")
-    it_ok = toz3(info.attrs["iteration"]) == toz3(sv.attrs["iteration"]) if isinstance(info, Obj) and "iteration" in info.attrs else z3.BoolVal(False)
-    return z3.And(z3.BoolVal(bool(same_vals)), it_ok)
+    attrs_then = c["snaps"].get(index if index is not None else saves(c).index(saved), c["self"].attrs); conj = []; n_leaves = [0]
+    def walk(o):
+        for k, v in o.attrs.items():
+            if isinstance(v, Obj): walk(v); continue
+            n_leaves[0] += 1
+            cur = attrs_then.get(k, "__missing__")
+            if isinstance(cur, str) and cur == "__missing__": conj.append(z3.BoolVal(False)); continue
+            if v is cur or (v is None and cur is None): continue
+            if is_z3(v) or is_z3(cur) or isinstance(v, (int, float)) and isinstance(cur, (int, float)):
+                try: conj.append(toz3(v) == toz3(cur)); continue
+                except Exception: pass
+            conj.append(z3.BoolVal(False))
+    walk(st)
+    if n_leaves[0] < 3: return z3.BoolVal(False)
+    return z3.And(*conj) if conj else z3.BoolVal(True)
 def wrap_loop(spec):
     old_havoc, old_check = spec.havoc, spec.check
     def havoc(I, env, c, k):
